@@ -203,3 +203,11 @@ op_iolog (char **tok, int ntok)
 		}
 	printf ("bad-op\n") ;
 }
+
+/* the harness's own allocations made while logging (event array, snapshot of the store at the first fault): reported to ledger.c so that
+** a heap balance taken around a logged scenario counts only what the library holds */
+void
+iolog_account (int *blocks, long *bytes)
+{	if (evs != NULL) { (*blocks) ++ ; *bytes += (long) (capev * sizeof (IOEV)) ; }
+	if (snap != NULL) { (*blocks) ++ ; *bytes += (long) (snaplen > 0 ? snaplen : 1) ; }
+}
